@@ -204,7 +204,11 @@ func c03Gen(b *bridgeHist, blk int, muts []depMutator) {
 	// Bitcoin side
 	switch {
 	case blk%9 == 4:
-		b.mineDeposits(1+r.Intn(5), r.Intn(3) == 0)
+		if b.depositBurst && r.Intn(2) == 0 {
+			b.mineDeposits(9+r.Intn(7), false)
+		} else {
+			b.mineDeposits(1+r.Intn(5), r.Intn(3) == 0)
+		}
 	case blk%3 == 0 && b.bc.Tip < 125:
 		b.bc.MineEmpty(16)
 	}
@@ -240,6 +244,9 @@ func c03Gen(b *bridgeHist, blk int, muts []depMutator) {
 		switch x := r.Intn(10); {
 		case x < 3 && len(fresh) > 0: // genuine batch
 			n := 1 + r.Intn(min(len(fresh), 6))
+			if b.depositBurst {
+				n = min(len(fresh), 16)
+			}
 			items := fresh[:n]
 			fresh = fresh[n:]
 			var ds []*bitcointypes.Deposit
